@@ -154,5 +154,5 @@ func c04Layout(c *Ctx) {
 			}
 		}
 	}
-	r.Floor("value-excludes-layout", n, 5, "input slices that become token text")
+	r.Floor("value-excludes-layout", n, 2, "input slices that become token text")
 }
